@@ -84,6 +84,7 @@ def run(run: Run):
     # STROBE-128 / Merlin re-implemented in Gallina (Crypto/Strobe.v): every challenge and transcript-RNG output of these runs recomputed in Coq
     from lib import merlinrep
     merlinrep.replay_sessions(run, "c19", fresh, fobs, 10 if quick else 80)
+    merlinrep.abstract_sessions(run, "c19", fresh, fobs, 12 if quick else 100)
     # the wire constants of the Gallina model itself: the labels, personas, nonce key layout and batch size the theorems speak about are the
     # ones the harness decodes the implementation's logs with (and whose Blake2b outputs C13 compares with the implementation's nonces)
     hdr = """From Coq Require Import NArith List Bool String Ascii.
